@@ -1,5 +1,9 @@
-(** C12 — property theorems (statements only; proofs in Proofs.v).
-    Model.v transcribes pkg/obingslibrary (multimatch.go) and FilterBestMatch of pkg/obiapat/pattern.go. *)
+(** C12 — property theorems (statements only; proofs in Proofs.v, Rescue.v, Round2.v).
+    Model.v transcribes pkg/obingslibrary (multimatch.go) and FilterBestMatch of pkg/obiapat/pattern.go.
+    Round 2 (second half of the file): rescue extraction (lookForRescueTag characterised, canonical read + strand symmetry in rescue
+    mode), every iteration order of the tag table, no distance bound on the nearest tag (by design), records cut at the spans of their
+    own hit pair for ANY matcher (primer indels), independence of the amplicons of a chimeric read, stability of the sort of the hits,
+    canonical read for any extraction mode / any matcher. *)
 From Coq Require Import NArith ZArith List Bool Arith Permutation.
 Import ListNotations.
 From OBI.C12 Require Import Model Proofs Rescue Round2.
